@@ -3,7 +3,7 @@
 PROPS = {}
 
 # commits in /repo that add the (feature-gated, add-only) hooks
-HOOK_COMMITS = ["4c30ba9"]
+HOOK_COMMITS = ["4c30ba9", "f08949f"]
 
 ENGINES = [
     {"name": "lean", "path": "/verif/lean", "serves_properties": [], "kind_free_text": "Lean 4 project: Spec (RFC transcription), Model (mirror of the Rust), Gen (regenerated from /repo), Props (theorems), zmodel driver"},
